@@ -526,6 +526,13 @@ func (r *pxRun) instrs(st *pxState, fr *pxFrame, b *ssa.BasicBlock, from int, do
 			}) {
 				return
 			}
+		case *ssa.TypeAssert:
+			t := r.eval(st, fr, x)
+			if !x.CommaOk {
+				// an assertion that panics unless the dynamic type is the asserted one
+				st.emit(Ev{Kind: "assert", Name: typeName(x.AssertedType), In: in, Within: fr.fn, Recv: t.A[0], Depth: fr.depth})
+			}
+			fr.env[x] = t
 		default:
 			if v, ok := in.(ssa.Value); ok {
 				fr.env[v] = r.eval(st, fr, v)
@@ -1728,6 +1735,13 @@ func contradictsKnown(f Facts, atom string) bool {
 		i := strings.Index(atom, ">(")
 		if i > 0 {
 			x := atom[i+1:]
+			// a nil interface value has no dynamic type
+			if x == "(nil)" {
+				return true
+			}
+			if v, ok := f[eqAtom(x[1:len(x)-1], "nil")]; ok && v {
+				return true
+			}
 			for a2, pol := range f {
 				if pol && a2 != atom && strings.HasPrefix(a2, "is<") && strings.HasSuffix(a2, x) {
 					j := strings.Index(a2, ">(")
